@@ -17,7 +17,7 @@ git apply -R patch.diff
 go test $TAGS -vet=off -count=1 -timeout 10m -run 'TestZZ|TestSeeded' "$PKG" > "$OUT/demo_without_patch.log" 2>&1; WO=$?
 git apply patch.diff
 mv "$DEMO" /tmp/$(basename $WT)-demo.go.aside
-go test -mod=mod -json -vet=off -count=1 -timeout 25m ./... > "$OUT/suite.json" 2> "$OUT/suite.err"
+go test -mod=mod -json -vet=off -count=1 -timeout 40m ./... > "$OUT/suite.json" 2> "$OUT/suite.err"
 mv /tmp/$(basename $WT)-demo.go.aside "$DEMO"
 python3 - "$OUT" $B $W $WO <<'PY'
 import json,sys
